@@ -191,7 +191,11 @@ func (st *wstate) checkClean(i int, l *scen.Lifetime, lf *model.Life, rep *scen.
 	// listed items that must not be listed
 	for _, f := range sum.Files {
 		if prop, keep := plan.KeepFiles[f]; keep {
-			vv := viol("clean-listed-kept-file", i, -1, f, []string{prop}, "Clean lists %s as obsolete but it %s", f, keepWhy(prop))
+			lprops := []string{prop}
+			if !plan.HasRun {
+				lprops = uniq(append(lprops, "C09")) // the report is exact: only stale items are listed
+			}
+			vv := viol("clean-listed-kept-file", i, -1, f, lprops, "Clean lists %s as obsolete but it %s", f, keepWhy(prop))
 			vv.File = f
 			if st.hit(vv) {
 				return true
@@ -236,7 +240,11 @@ func (st *wstate) checkClean(i int, l *scen.Lifetime, lf *model.Life, rep *scen.
 			continue
 		}
 		if prop, keep := keepIDs[id]; keep {
-			vv := viol("clean-listed-kept-entry", i, -1, id, []string{prop}, "Clean lists entry [%s] as obsolete but it %s", id, keepWhy(prop))
+			lprops := []string{prop}
+			if !plan.HasRun {
+				lprops = uniq(append(lprops, "C09"))
+			}
+			vv := viol("clean-listed-kept-entry", i, -1, id, lprops, "Clean lists entry [%s] as obsolete but it %s", id, keepWhy(prop))
 			vv.File = keepFile[id]
 			if st.hit(vv) {
 				return true
@@ -620,7 +628,7 @@ func (st *wstate) checkMulti(i int, l *scen.Lifetime, lf *model.Life, after worl
 				return viol("entry-unexpected", i, -1, e.ID, props, "%s holds entry [%s] which should not exist (any more)", path, e.ID)
 			}
 			if w.Text.Known && w.Text.S != e.Body {
-				return viol("entry-text-wrong", i, -1, e.ID, cleanLabelText(plan, touched, path, callProps("C03")), "entry [%s] of %s holds %q, expected %q", e.ID, path, clip(e.Body), clip(w.Text.S))
+				return viol("entry-text-wrong", i, -1, e.ID, cleanLabelEntry(plan, touched, path, e.ID, callProps("C03")), "entry [%s] of %s holds %q, expected %q", e.ID, path, clip(e.Body), clip(w.Text.S))
 			}
 		}
 		for id := range want {
@@ -694,6 +702,20 @@ func isSJSON(lf *model.Life, path string) bool { return lf.SoloJSON[path] }
 func cleanLabelText(plan *model.CleanPlan, touched map[string]bool, path string, def []string) []string {
 	if plan != nil && touched[path] {
 		return []string{"C10"}
+	}
+	return def
+}
+
+// cleanLabelEntry: Clean rewrote the file and an entry that had to be kept no longer
+// holds its text - C10, and the property that protects that entry ("never alters the
+// replayed value of an entry that a Match* call addressed during this process").
+func cleanLabelEntry(plan *model.CleanPlan, touched map[string]bool, path, id string, def []string) []string {
+	if plan != nil && touched[path] {
+		props := []string{"C10"}
+		if p, ok := plan.KeepTests[path+"\x00"+id]; ok && p != "C09" {
+			props = append(props, p)
+		}
+		return uniq(props)
 	}
 	return def
 }
